@@ -117,6 +117,24 @@ def run(ctx):
                     oksec = True
     ctx.check("flow:refill:capped", okcap and len(w) == 1, "refill writes min(.., self.capacity) into the balance (single write)", rules.where(rf), fn=rf)
     ctx.check("flow:refill:whole-seconds", oksec, "refill credits elapsed whole seconds (as_secs) times the rate", rules.where(rf), fn=rf)
+    # who touches the per-host buckets: dropping or replacing a bucket resets the host's balance to full capacity
+    bm = []
+    for fn in db.all_fns():
+        if fn["unit"] != "radicle_node.rlib":
+            continue
+        for bb, callee in rules.field_mut_calls(fn, "buckets", r"limiter::RateLimiter"):
+            bm.append((fn, bb, callee))
+        for bb, j, s_ in rules.field_writes(fn, "buckets", r"limiter::RateLimiter"):
+            bm.append((fn, bb, "assignment"))
+    ctx.floor("who:RateLimiter.buckets", len(bm), 1, "mutating uses of RateLimiter.buckets")
+    for fn, bb, callee in bm:
+        rk = rules.root_key(db, fn)
+        grow = re.search(r"HashMap::entry$|Entry::or_insert_with$|or_insert", callee or "") is not None
+        ctx.check("who:RateLimiter.buckets:%s:%s" % (cfg.short(rk), cfg.short(callee or "write")),
+                  bool(re.search(r"limiter::RateLimiter::(limit|new)$", rk)) and grow,
+                  "buckets are only created on first use by limit(); a bucket that is removed, cleared or replaced comes back with a full balance "
+                  "(more than capacity + refill admitted)", rules.where(fn, bb), fn=fn)
+
     # who writes the balance
     sites = []
     for fn in db.all_fns():
